@@ -4,27 +4,46 @@ package main
 
 // Correspondence suite `portability` (property C09, second half): the real catchment
 // model, the real ModelCompressor.  For many action sets of the shipped datasets (all of
-// them in the thorough tier) and of synthetic datasets with more than 64 / 128 actions:
-// compress in one model instance, take the text, decode + decompress into an independently
-// constructed instance (new dataset load / CoreModel / DeepClone: fresh Go map iteration
-// orders), compare actions (planning unit, type, active flag), decision-variable values and
-// the re-derived text; compare the sorted action order over many constructions and feed the
-// real pre-sort (map) orders to the model's sort.
+// them in the thorough tier) and of synthetic datasets with 64, 78, 128, 130 and 192 actions
+// (exact multiples of the 64-bit word included): compress in one model instance, take the
+// text, decode + decompress into an independently constructed instance (new dataset load /
+// CoreModel / DeepClone: fresh Go map iteration orders), compare actions (planning unit,
+// type, active flag), decision-variable values and the re-derived text; the same with
+// non-canonical texts (lower case, leading zeros, stray bits above the action count); compare
+// the sorted action order over many constructions and feed the real pre-sort (map) orders to
+// the model's sort.  The real call sites are driven as well: scenario.Saver.ObserveEvent on a
+// real NonDominanceModelArchive / CompressedModelState (Saver.deriveSolutionFrom…: written
+// JSON detail + CSV/JSON summaries are parsed back), and the engine's Mux in-process (PATCH
+// /model Encoding = reInitialiseModelWithEncoding, POST /solutions + GET /solutions/<label> =
+// SolutionPool.AddSolution, fed with the Saver's own summary).  `less` / `sort` lines drive
+// ManagementActions.Less and ModelManagementActions.Sort directly over crem's own
+// SimpleManagementAction stubs (equal keys, prefix-sharing type names, ids 0 and >= 2^63).
 
 import (
+	"encoding/json"
 	"fmt"
 	"math"
+	"net/http/httptest"
 	"os"
 	"path/filepath"
+	"regexp"
 	"sort"
+	"strconv"
 	"strings"
 
+	engineapi "github.com/LindsayBradford/crem/cmd/cremengine/engine/api"
+	solutionEncoding "github.com/LindsayBradford/crem/internal/pkg/annealing/solution/encoding"
 	"github.com/LindsayBradford/crem/internal/pkg/dataset/csv"
 	"github.com/LindsayBradford/crem/internal/pkg/model"
 	"github.com/LindsayBradford/crem/internal/pkg/model/action"
 	modelArchive "github.com/LindsayBradford/crem/internal/pkg/model/archive"
 	"github.com/LindsayBradford/crem/internal/pkg/model/models/catchment"
+	"github.com/LindsayBradford/crem/internal/pkg/model/planningunit"
+	"github.com/LindsayBradford/crem/internal/pkg/observer"
 	"github.com/LindsayBradford/crem/internal/pkg/parameters"
+	"github.com/LindsayBradford/crem/internal/pkg/scenario"
+	"github.com/LindsayBradford/crem/pkg/logging/loggers"
+	"github.com/LindsayBradford/crem/pkg/threading"
 )
 
 func init() { register("portability", suitePortability) }
@@ -257,7 +276,7 @@ func (p *c09PortRun) orderCheck(constructions int) {
 }
 
 // transfer: instance A holds `flags` (reached by `route`), its text goes into instance B.
-func (p *c09PortRun) transfer(a model.Model, flags []bool, route string, bKind int, bPreset []bool) {
+func (p *c09PortRun) transfer(a model.Model, flags []bool, route string, bKind int, bPreset []bool, respell *Rng) {
 	c := p.c
 	var ops []string
 	cmA := p.compress.Compress(a)
@@ -283,11 +302,17 @@ func (p *c09PortRun) transfer(a model.Model, flags []bool, route string, bKind i
 	if bPreset != nil {
 		c09SetFlags(b, bPreset) // "any" state of the receiving instance, not only as-is
 	}
-	// the engine's sequence (SolutionPool.AddSolution, Mux.reInitialiseModelWithEncoding)
+	// what is fed to B: A's own text, or (respell) a non-canonical spelling of the same set: lower / mixed case,
+	// leading zeros, random bits at and above the action count in the last word
+	fed := text
+	if respell != nil {
+		fed = c09ValidTextFor(respell, flags, true)
+	}
+	// the sequence of SolutionPool.AddSolution / Mux.reInitialiseModelWithEncoding, replayed on the real ModelCompressor
 	var decodeErr error
 	if pn := protect(func() {
 		cmB := p.compress.Compress(b)
-		decodeErr = cmB.Decode(text)
+		decodeErr = cmB.Decode(fed)
 		if decodeErr == nil {
 			p.compress.Decompress(cmB, b)
 		}
@@ -295,11 +320,11 @@ func (p *c09PortRun) transfer(a model.Model, flags []bool, route string, bKind i
 		p.fail("no-panic", "portability:panic", pn, ops)
 		return
 	}
-	op2 := fmt.Sprintf("pd %d =%s", len(flags), c09Esc(text))
+	op2 := fmt.Sprintf("pd %d =%s", len(flags), c09Esc(fed))
 	ops = append(ops, op2)
 	if decodeErr != nil {
 		c.Op(op2, c09DecodeClass(decodeErr))
-		p.fail("lossless", "portability:decode-rejected", fmt.Sprintf("text %q of instance A rejected by instance B: %v", text, decodeErr), ops)
+		p.fail("lossless", "portability:decode-rejected", fmt.Sprintf("text %q (instance A encodes to %q) rejected by instance B: %v", fed, text, decodeErr), ops)
 		return
 	}
 	c.Op(op2, "ok "+c09Bits(c09FlagsOf(b)))
@@ -351,9 +376,13 @@ func (p *c09PortRun) transfer(a model.Model, flags []bool, route string, bKind i
 			active++
 		}
 	}
-	c.Stat(fmt.Sprintf("transfer %s n=%d route=%s into=%s preset=%v", p.ds.name, len(flags), route, c09KindNames[bKind], bPreset != nil))
+	spelling := "canonical"
+	if fed != text {
+		spelling = "non-canonical"
+	}
+	c.Stat(fmt.Sprintf("transfer %s n=%d route=%s into=%s preset=%v text=%s", p.ds.name, len(flags), route, c09KindNames[bKind], bPreset != nil, spelling))
 	if active > 0 {
-		c.Nontrivial(p.ds.name + "|" + c09Bits(flags) + "|" + route + "|" + c09KindNames[bKind])
+		c.Nontrivial(p.ds.name + "|" + c09Bits(flags) + "|" + route + "|" + c09KindNames[bKind] + "|" + spelling)
 	}
 }
 
@@ -390,6 +419,627 @@ func (p *c09PortRun) grayCodeUniqueness(m model.Model) {
 	c09SetFlags(m, make([]bool, n))
 }
 
+
+// c09Synth: a synthetic dataset = the shipped catchment test data replicated `copies` times, with the last
+// `drop` Wetland rows of the replicated actions table removed so that the action count hits a word boundary.
+type c09Synth struct {
+	name         string
+	copies, drop int
+	want         int // number of management actions the model must end with
+}
+
+var c09SynthSpecs = []c09Synth{
+	{"synthetic-64", 5, 1, 64}, // exactly one full archive word
+	{"synthetic-x6", 6, 0, 78},
+	{"synthetic-128", 10, 2, 128}, // exactly two
+	{"synthetic-x10", 10, 0, 130},
+	{"synthetic-192", 15, 3, 192}, // exactly three
+}
+
+func c09DropWetlandRows(dstDir string, drop int) error {
+	if drop == 0 {
+		return nil
+	}
+	actionsFile := filepath.Join(dstDir, "ValidActions.csv")
+	b, err := os.ReadFile(actionsFile)
+	if err != nil {
+		return err
+	}
+	lines := strings.Split(strings.TrimRight(string(b), "\n"), "\n")
+	for i := len(lines) - 1; i > 0 && drop > 0; i-- {
+		if strings.Contains(lines[i], ",Wetland,") {
+			lines = append(lines[:i], lines[i+1:]...)
+			drop--
+		}
+	}
+	if drop > 0 {
+		return fmt.Errorf("not enough Wetland rows to drop")
+	}
+	return os.WriteFile(actionsFile, []byte(strings.Join(lines, "\n")+"\n"), 0o644)
+}
+
+// ---------------------------------------------------------------- ManagementActions.Less / Sort, directly
+
+// type names for the stub actions: the real ones, prefixes of one another, the empty name, case variants,
+// multi-byte names (Go compares bytes, the model code points: the same order on valid UTF-8)
+var c09StubTypes = []string{"GullyRestoration", "HillSlopeRestoration", "RiverBankRestoration", "WetlandsEstablishment",
+	"", "G", "Gu", "Gully", "GullyRestoration2", "GullyRestoratioN", "gullyRestoration", "H", "A", "AB", "ABC", "B", "a", "Z", "z", "~", "!",
+	"é", "éa", "e", "Ａ", "𝒜", "0", "00", "9", "10"}
+
+var c09StubIds = []uint64{0, 1, 2, 17, 18, 923, 1<<31 - 1, 1 << 31, 1<<32 - 1, 1 << 32, 1<<53 + 1, 1<<63 - 1, 1 << 63, 1<<63 + 1, 1<<64 - 2, 1<<64 - 1}
+
+type c09Stub struct {
+	pu  uint64
+	typ string
+	id  int
+}
+
+func (s c09Stub) tok() string { return fmt.Sprintf("%d:%s:%d", s.pu, s.typ, s.id) }
+
+func c09ParseStub(tok string) (c09Stub, bool) {
+	f := strings.Split(tok, ":")
+	if len(f) != 3 {
+		return c09Stub{}, false
+	}
+	pu, e1 := strconv.ParseUint(f[0], 10, 64)
+	id, e2 := strconv.Atoi(f[2])
+	return c09Stub{pu, f[1], id}, e1 == nil && e2 == nil
+}
+
+// the stub is crem's own SimpleManagementAction; its identity (`id`) travels in a variable the order does not look at
+func (s c09Stub) action() action.ManagementAction {
+	return new(action.SimpleManagementAction).WithPlanningUnit(planningunit.Id(s.pu)).
+		WithType(action.ManagementActionType(s.typ)).WithVariable("id", float64(s.id))
+}
+
+func c09StubOf(a action.ManagementAction) c09Stub {
+	return c09Stub{uint64(a.PlanningUnit()), string(a.Type()), int(a.ModelVariableValue("id"))}
+}
+
+func c09RefLess(a, b c09Stub) bool { return a.pu < b.pu || (a.pu == b.pu && a.typ < b.typ) }
+
+// c09LessLine: `less A B` -> 0|1, the real ManagementActions.Less on a two-element slice.
+func c09LessLine(c *Ctx, a, b c09Stub) bool {
+	op := "less " + a.tok() + " " + b.tok()
+	var got bool
+	if p := protect(func() { got = action.ManagementActions{a.action(), b.action()}.Less(0, 1) }); p != "" {
+		c.Op(op, "panic")
+		c.Fail("no-panic", "portability:less-panic", p, []string{op})
+		return false
+	}
+	c.Op(op, b2s(got))
+	if got != c09RefLess(a, b) {
+		c.Fail("less-is-the-key-order", "portability:less-definition",
+			fmt.Sprintf("Less(%s, %s) = %v, but (planning unit, type) compares as %v", a.tok(), b.tok(), got, c09RefLess(a, b)), []string{op})
+	}
+	cls := "pu-differs"
+	if a.pu == b.pu {
+		cls = "same-pu"
+		switch {
+		case a.typ == b.typ:
+			cls += " same-type"
+		case strings.HasPrefix(a.typ, b.typ) || strings.HasPrefix(b.typ, a.typ):
+			cls += " type-prefix"
+		case a.typ != "" && b.typ != "" && a.typ[0] == b.typ[0]:
+			cls += " same-first-byte"
+		}
+	}
+	if a.pu >= 1<<63 || b.pu >= 1<<63 {
+		cls += " pu>=2^63"
+	}
+	c.Stat("less " + cls + " -> " + b2s(got))
+	c.Nontrivial("less|" + cls + "|" + b2s(got))
+	return got
+}
+
+// c09SortLine: `sort A B ..` -> the real ModelManagementActions.Add + Sort.  With distinct keys the whole list is
+// determined (`d` + tokens with identities); with equal keys sort.Sort may order the twins either way, so only the
+// key sequence is compared (`e` + pu:type).  The contract assumed of sort.Sort (a permutation, no later element Less
+// than an earlier one) is checked directly on the result.
+func c09SortLine(c *Ctx, stubs []c09Stub) {
+	toks := make([]string, len(stubs))
+	for i, s := range stubs {
+		toks[i] = s.tok()
+	}
+	op := strings.TrimSpace("sort " + strings.Join(toks, " "))
+	var sorted []c09Stub
+	if p := protect(func() {
+		m := new(action.ModelManagementActions)
+		m.Initialise()
+		for _, s := range stubs {
+			m.Add(s.action())
+		}
+		m.Sort()
+		for _, a := range m.Actions() {
+			sorted = append(sorted, c09StubOf(a))
+		}
+	}); p != "" {
+		c.Op(op, "panic")
+		c.Fail("no-panic", "portability:sort-panic", p, []string{op})
+		return
+	}
+	distinct := true
+	seen := map[string]bool{}
+	for _, s := range stubs {
+		k := fmt.Sprintf("%d:%s", s.pu, s.typ)
+		if seen[k] {
+			distinct = false
+		}
+		seen[k] = true
+	}
+	out := make([]string, len(sorted))
+	for i, s := range sorted {
+		if distinct {
+			out[i] = s.tok()
+		} else {
+			out[i] = fmt.Sprintf("%d:%s", s.pu, s.typ)
+		}
+	}
+	res := "e"
+	if distinct {
+		res = "d"
+	}
+	c.Op(op, strings.TrimSpace(res+" "+strings.Join(out, " ")))
+	// sort.Sort's contract, on the implementation
+	ids := map[int]int{}
+	for _, s := range stubs {
+		ids[s.id]++
+	}
+	for _, s := range sorted {
+		ids[s.id]--
+	}
+	perm := len(sorted) == len(stubs)
+	for _, n := range ids {
+		if n != 0 {
+			perm = false
+		}
+	}
+	if !perm {
+		c.Fail("sort-contract", "portability:sort-not-a-permutation", fmt.Sprintf("%v sorted to %v", toks, out), []string{op})
+	}
+	for i := range sorted {
+		for j := i + 1; j < len(sorted); j++ {
+			if c09RefLess(sorted[j], sorted[i]) {
+				c.Fail("sort-contract", "portability:sort-not-sorted", fmt.Sprintf("%v: %s stands before %s", out, sorted[i].tok(), sorted[j].tok()), []string{op})
+				i = len(sorted)
+				break
+			}
+		}
+	}
+	c.Stat(fmt.Sprintf("sort n=%s keys-distinct=%v", map[bool]string{true: "<=8", false: ">8"}[len(stubs) <= 8], distinct))
+	c.Nontrivial(op)
+}
+
+func c09RandStub(r *Rng, id int, pool []c09Stub) c09Stub {
+	if len(pool) > 0 && r.Chance(0.35) { // same planning unit as an earlier stub, often the same or a prefix type
+		o := pool[r.Intn(len(pool))]
+		s := c09Stub{o.pu, o.typ, id}
+		switch r.Intn(4) {
+		case 0: // equal key
+		case 1:
+			s.typ = o.typ + []string{"2", "a", "A", "é"}[r.Intn(4)]
+		case 2:
+			if len(o.typ) > 0 {
+				s.typ = o.typ[:r.Intn(len(o.typ))]
+				for !validUTF8C09(s.typ) {
+					s.typ = s.typ[:len(s.typ)-1]
+				}
+			}
+		default:
+			s.typ = c09StubTypes[r.Intn(len(c09StubTypes))]
+		}
+		return s
+	}
+	pu := c09StubIds[r.Intn(len(c09StubIds))]
+	if r.Chance(0.3) {
+		pu = r.U64()
+	}
+	return c09Stub{pu, c09StubTypes[r.Intn(len(c09StubTypes))], id}
+}
+
+func validUTF8C09(s string) bool { return strings.ToValidUTF8(s, "") == s }
+
+// c09OrderLines: direct `less` / `sort` lines (shard 0 does the exhaustive part).
+func c09OrderLines(c *Ctx, r *Rng) {
+	if c.Shard == 0 {
+		// exhaustive pairs over a small grid of planning units x all type names: every ordered pair
+		pus := []uint64{0, 17, 1<<63 - 1, 1 << 63, 1<<64 - 1}
+		var grid []c09Stub
+		for _, pu := range pus {
+			for _, t := range c09StubTypes {
+				grid = append(grid, c09Stub{pu, t, len(grid)})
+			}
+		}
+		step := 1
+		if !c.Thorough() {
+			step = 3 // every third partner in the quick tier (the diagonal and its neighbours always)
+		}
+		for i, a := range grid {
+			for j, b := range grid {
+				if (i+j)%step != 0 && i != j && j != i+1 {
+					continue
+				}
+				lab := c09LessLine(c, a, b)
+				if i == j && lab {
+					c.Fail("less-strict-order", "portability:less-not-irreflexive", a.tok(), nil)
+				}
+			}
+		}
+		c09SortLine(c, nil)
+		c09SortLine(c, grid[:1])
+		c09SortLine(c, grid)
+	}
+	n := (c.N(400, 6000) + c.Shards - 1) / c.Shards
+	for k := 0; k < n; k++ {
+		var pool []c09Stub
+		m := 2 + r.Intn(7)
+		if r.Chance(0.1) {
+			m = 9 + r.Intn(60) // beyond sort.Sort's insertion-sort threshold (12): pdqsort proper
+		}
+		wantDistinct := r.Bool() // half of the lists have pairwise distinct keys (the whole result is then determined)
+		keys := map[string]bool{}
+		for i := 0; i < m; i++ {
+			st := c09RandStub(r, i, pool)
+			for tries := 0; wantDistinct && keys[fmt.Sprintf("%d:%s", st.pu, st.typ)] && tries < 50; tries++ {
+				st = c09RandStub(r, i, pool)
+			}
+			keys[fmt.Sprintf("%d:%s", st.pu, st.typ)] = true
+			pool = append(pool, st)
+		}
+		c09SortLine(c, pool)
+		// the order laws directly on the implementation over triples of this pool
+		for t := 0; t < 4; t++ {
+			a, b, d := pool[r.Intn(m)], pool[r.Intn(m)], pool[r.Intn(m)]
+			ab, ba, bd, ad := c09LessLine(c, a, b), c09LessLine(c, b, a), c09LessLine(c, b, d), c09LessLine(c, a, d)
+			if ab && ba {
+				c.Fail("less-strict-order", "portability:less-not-asymmetric", a.tok()+" "+b.tok(), nil)
+			}
+			if ab && bd && !ad {
+				c.Fail("less-strict-order", "portability:less-not-transitive", a.tok()+" "+b.tok()+" "+d.tok(), nil)
+			}
+			if !ab && !ba && (a.pu != b.pu || a.typ != b.typ) {
+				c.Fail("less-total-on-keys", "portability:less-not-total", a.tok()+" "+b.tok(), nil)
+			}
+		}
+	}
+}
+
+// ---------------------------------------------------------------- the real call sites: Saver and engine
+
+type c09Offered struct {
+	flags  []bool
+	active string
+	names  []string
+	vals   []float64
+}
+
+type c09SolutionDoc struct {
+	Id                string
+	DecisionVariables []struct {
+		Name  string
+		Value interface{} // a number in the Saver's files, a string in the engine's documents
+	}
+	ActiveManagementActions map[string][]string
+	Attributes              []struct {
+		Name  string
+		Value interface{}
+	}
+	// summary documents
+	Solutions []struct {
+		Id      string
+		Actions string
+	}
+	Type, Message string
+}
+
+var c09MemberRe = regexp.MustCompile(`\((\d+)/(\d+)\)\s*$`)
+
+// bitsOfActive maps a planning-unit -> action-types document onto the reference action order by KEY (not index).
+func (p *c09PortRun) bitsOfActive(m map[string][]string) (bits []bool, activeSet string, stray []string) {
+	have := map[string]bool{}
+	for pu, ts := range m {
+		for _, t := range ts {
+			have[pu+":"+t] = true
+		}
+	}
+	bits = make([]bool, p.n)
+	var ks []string
+	for i, k := range p.refKeys {
+		if have[k] {
+			bits[i] = true
+			ks = append(ks, k)
+			delete(have, k)
+		}
+	}
+	for k := range have {
+		stray = append(stray, k)
+	}
+	sort.Strings(ks)
+	sort.Strings(stray)
+	return bits, strings.Join(ks, " "), stray
+}
+
+func c09RunSaver(otype, level, dir string, dec model.Model, ev *observer.Event) string {
+	return protect(func() {
+		saver := scenario.NewSaver().
+			WithOutputType(solutionEncoding.OutputType(otype)).
+			WithOutputPath(dir).
+			WithOutputLevel(scenario.OutputLevel(level)).
+			WithLogHandler(loggers.NewNullLogger())
+		saver.SetDecompressionModel(dec)
+		saver.ObserveEvent(*ev)
+	})
+}
+
+type c09Engine struct{ mux *engineapi.Mux }
+
+func c09NewEngine() *c09Engine {
+	threading.ResetMainThreadChannel()
+	ch := threading.GetMainThreadChannel()
+	m := new(engineapi.Mux).Initialise().WithMainThreadChannel(&ch)
+	m.SetLogger(loggers.NewNullLogger())
+	return &c09Engine{mux: m}
+}
+
+func (e *c09Engine) do(method, path, ctype, body string) (status int, resp string, panicked string) {
+	panicked = protect(func() {
+		w := httptest.NewRecorder()
+		r := httptest.NewRequest(method, "http://dummy.com/", strings.NewReader(body))
+		r.URL.Path = path
+		if ctype != "" {
+			r.Header.Add("Content-Type", ctype)
+		}
+		e.mux.ServeHTTP(w, r)
+		status, resp = w.Code, w.Body.String()
+	})
+	return
+}
+
+func (p *c09PortRun) newEngine() *c09Engine {
+	e := c09NewEngine()
+	toml := fmt.Sprintf("[Scenario]\nName = \"C09\"\n[Annealer]\nType = \"Kirkpatrick\"\n[Model]\nType = \"CatchmentModel\"\n[Model.Parameters]\nDataSourcePath = %q\n", p.ds.abs)
+	if st, resp, pn := e.do("POST", "/api/v1/scenario", "application/toml", toml); pn != "" || st != 200 {
+		p.fail("construct", "portability:engine-scenario", fmt.Sprintf("POST /api/v1/scenario: status %d panic %q body %.200s", st, pn, resp), nil)
+		return nil
+	}
+	return e
+}
+
+// servedLine: one solution document served by the engine for `fed` (a text the spec reads as `flags`):
+// `pd n =fed` -> `ok b<active actions of the document, by key>`; direct: the active set is `want`.
+func (p *c09PortRun) servedLine(site, fed string, doc *c09SolutionDoc, wantActive string, ops []string) {
+	bits, active, stray := p.bitsOfActive(doc.ActiveManagementActions)
+	op := fmt.Sprintf("pd %d =%s", p.n, c09Esc(fed))
+	ops = append(ops, op)
+	p.c.Op(op, "ok "+c09Bits(bits))
+	if len(stray) > 0 {
+		p.fail("lossless-portable", "portability:"+site+"-unknown-action", fmt.Sprintf("text %q: the document names actions the model does not have: %v", fed, stray), ops)
+	}
+	if active != wantActive {
+		p.fail("lossless-portable", "portability:"+site+"-active-set", fmt.Sprintf("text %q: expected active {%s}, the document shows {%s}", fed, wantActive, active), ops)
+	}
+	p.c.Stat(fmt.Sprintf("call site %s %s n=%d", site, p.ds.name, p.n))
+	p.c.Nontrivial(p.ds.name + "|" + site + "|" + fed)
+}
+
+// enginePatch: PATCH /api/v1/model with an Encoding attribute (Mux.reInitialiseModelWithEncoding), then GET /api/v1/model.
+func (p *c09PortRun) enginePatch(e *c09Engine, fed string, canonical string, wantActive string) {
+	body := fmt.Sprintf(`[{"Name":"Encoding","Value":%s}]`, strconv.Quote(fed))
+	st, resp, pn := e.do("PATCH", "/api/v1/model", "application/json", body)
+	if pn != "" || st != 200 {
+		p.fail("lossless", "portability:engine-patch-rejected", fmt.Sprintf("PATCH /api/v1/model Encoding=%q: status %d panic %q body %.200s", fed, st, pn, resp), nil)
+		return
+	}
+	st, resp, pn = e.do("GET", "/api/v1/model", "", "")
+	var doc c09SolutionDoc
+	if pn != "" || st != 200 || json.Unmarshal([]byte(resp), &doc) != nil {
+		p.fail("lossless", "portability:engine-model-unreadable", fmt.Sprintf("GET /api/v1/model: status %d panic %q body %.200s", st, pn, resp), nil)
+		return
+	}
+	p.servedLine("engine-patch", fed, &doc, wantActive, nil)
+	for _, a := range doc.Attributes {
+		if a.Name == "Encoding" {
+			got, _ := a.Value.(string)
+			bits, _, _ := p.bitsOfActive(doc.ActiveManagementActions)
+			op := "pe " + c09Bits(bits)
+			p.c.Op(op, "="+c09Esc(got))
+			if got != canonical {
+				p.fail("canonical", "portability:engine-encoding-attribute", fmt.Sprintf("patched with %q (canonical %q), the model's Encoding attribute reads %q", fed, canonical, got), []string{op})
+			}
+		}
+	}
+}
+
+// saverPath: K real model instances are offered to a real NonDominanceModelArchive (or one is compressed on its
+// own), a FinishedAnnealing event carries it to a real Saver whose decompression model is an independently
+// built instance; the written files are parsed back; the CSV summary is then posted to a real engine and every
+// row is requested (SolutionPool.AddSolution), canonically and with non-canonical re-spellings of the texts.
+func (p *c09PortRun) saverPath(r *Rng, walker model.Model, eng *c09Engine) {
+	c := p.c
+	single := r.Chance(0.25)
+	k := 1
+	if !single {
+		k = 2 + r.Intn(6)
+	}
+	arch := modelArchive.New()
+	arch.SetId("c09run")
+	offered := map[string]c09Offered{}
+	var members []*modelArchive.CompressedModelState
+	for i := 0; i < k; i++ {
+		flags := c09RandBits(r, p.n, []float64{0.1, 0.5, 0.5, 0.9}[r.Intn(4)])
+		if r.Chance(0.3) && p.n > 64 { // a set living in one word only
+			w := r.Intn((p.n + 63) / 64)
+			for j := range flags {
+				if j/64 != w {
+					flags[j] = false
+				}
+			}
+		}
+		var a model.Model
+		if r.Chance(0.3) {
+			a = walker
+		} else {
+			var err string
+			if a, err = c09BuildInstance(p.ds, r.Intn(c09KindCount)); err != "" {
+				p.fail("construct", "portability:construct", err, nil)
+				return
+			}
+		}
+		c09SetFlags(a, flags)
+		cm := p.compress.Compress(a)
+		names, vals := c09ValuesOfModel(a)
+		offered[cm.Encoding()] = c09Offered{flags: flags, active: c09ActiveSetOf(a), names: names, vals: vals}
+		if single {
+			cm.SetId("c09run")
+			members = []*modelArchive.CompressedModelState{cm}
+		} else {
+			arch.AttemptToArchive(a) // the explorers' route: compress + Pareto filter
+		}
+	}
+	ev := observer.NewEvent(observer.FinishedAnnealing)
+	if single {
+		ev.WithAttribute(scenario.CompressedModel, *members[0])
+	} else {
+		members = arch.Archive()
+		ev.WithAttribute(scenario.ModelArchive, *arch)
+	}
+	dec, err := c09BuildInstance(p.ds, r.Intn(c09KindCount))
+	if err != "" {
+		p.fail("construct", "portability:construct", err, nil)
+		return
+	}
+	if r.Chance(0.5) {
+		c09SetFlags(dec, c09RandBits(r, p.n, 0.5))
+	}
+	dirJ, e1 := os.MkdirTemp(c.Out, "c09saveJ")
+	dirC, e2 := os.MkdirTemp(c.Out, "c09saveC")
+	if e1 != nil || e2 != nil {
+		p.fail("harness", "portability:tempdir", fmt.Sprint(e1, e2), nil)
+		return
+	}
+	defer os.RemoveAll(dirJ)
+	defer os.RemoveAll(dirC)
+	if pn := c09RunSaver("JSON", "Detail", dirJ, dec, ev); pn != "" {
+		p.fail("no-panic", "portability:saver-panic", pn, nil)
+		return
+	}
+	// ---- parse the JSON directory
+	details := map[int]*c09SolutionDoc{} // member number (1-based), 0 = as-is
+	var summary *c09SolutionDoc
+	files, _ := filepath.Glob(filepath.Join(dirJ, "*.json"))
+	for _, f := range files {
+		b, _ := os.ReadFile(f)
+		var doc c09SolutionDoc
+		if err := json.Unmarshal(b, &doc); err != nil {
+			p.fail("saver-output", "portability:saver-unreadable", filepath.Base(f)+": "+err.Error(), nil)
+			return
+		}
+		switch {
+		case doc.Solutions != nil:
+			summary = &doc
+		case strings.Contains(doc.Id, "As-Is"):
+			d := doc
+			details[0] = &d
+		default:
+			if m := c09MemberRe.FindStringSubmatch(doc.Id); m != nil {
+				num, _ := strconv.Atoi(m[1])
+				d := doc
+				details[num] = &d
+			}
+		}
+	}
+	if summary == nil || len(details) != len(members)+1 {
+		p.fail("saver-output", "portability:saver-files", fmt.Sprintf("%d members: summary found %v, %d detail documents in %v", len(members), summary != nil, len(details), files), nil)
+		return
+	}
+	rowText := map[string]string{}
+	for _, s := range summary.Solutions {
+		rowText[s.Id] = s.Actions
+	}
+	label := func(j int) string {
+		if single || len(members) == 1 { // the Saver labels "(1/1)" as Optimised, also for a one-member front
+			return "Optimised"
+		}
+		return fmt.Sprintf("%d-of-%d", j+1, len(members))
+	}
+	type fedRow struct{ label, text, active string }
+	var rows []fedRow
+	for j, cm := range members {
+		text := cm.Encoding()
+		off, ok := offered[text]
+		if !ok {
+			p.fail("harness", "portability:harness-member", "archive member with a text no offered instance had: "+text, nil)
+			continue
+		}
+		// summary row: the text the Saver's own instance derives after Decompress
+		op1 := "pe " + c09Bits(off.flags)
+		got, has := rowText[label(j)]
+		c.Op(op1, "="+c09Esc(got))
+		if !has || got != text {
+			p.fail("canonical", "portability:saver-encoding", fmt.Sprintf("member %d: the run's instance encodes to %q, the Saver's summary row %q reads %q", j+1, text, label(j), got), []string{op1})
+		}
+		// detail document: the actions active in the Saver's instance, by (planning unit, type)
+		p.servedLine("saver", text, details[j+1], off.active, []string{op1})
+		for _, dv := range details[j+1].DecisionVariables {
+			v, isNum := dv.Value.(float64)
+			if str, isStr := dv.Value.(string); isStr {
+				if f, err := strconv.ParseFloat(strings.ReplaceAll(str, ",", ""), 64); err == nil {
+					v, isNum = f, true
+				}
+			}
+			for i, nme := range off.names {
+				if nme == dv.Name && (!isNum || math.Abs(v-off.vals[i]) > 0.0051+1e-9*math.Abs(off.vals[i])) {
+					p.fail("values", "portability:saver-values", fmt.Sprintf("member %d %s: run's instance %v, Saver wrote %v", j+1, nme, off.vals[i], dv.Value), nil)
+				}
+			}
+		}
+		rows = append(rows, fedRow{label(j), text, off.active})
+	}
+	if _, active, _ := p.bitsOfActive(details[0].ActiveManagementActions); active != "" {
+		p.fail("lossless-portable", "portability:saver-as-is", "the as-is document shows active actions {"+active+"}", nil)
+	}
+	c.Stat(fmt.Sprintf("saver event %s single=%v offered=%d archived=%d", p.ds.name, single, k, len(members)))
+
+	// ---- the engine's pool, fed with the Saver's own CSV summary
+	if eng == nil {
+		return
+	}
+	if pn := c09RunSaver("CSV", "Summary", dirC, dec, ev); pn != "" {
+		p.fail("no-panic", "portability:saver-panic", pn, nil)
+		return
+	}
+	sums, _ := filepath.Glob(filepath.Join(dirC, "*-Summary.csv"))
+	if len(sums) != 1 {
+		p.fail("saver-output", "portability:saver-files", fmt.Sprintf("CSV summaries written: %v", sums), nil)
+		return
+	}
+	csvBytes, _ := os.ReadFile(sums[0])
+	csvText := string(csvBytes)
+	respell := r.Chance(0.5)
+	if respell { // the same rows, every member's text re-spelt non-canonically (the pool must serve the same sets)
+		for i := range rows {
+			alt := c09ValidTextFor(r, offered[rows[i].text].flags, true)
+			if strings.Count(csvText, ", "+rows[i].text+", ") == 1 {
+				csvText = strings.Replace(csvText, ", "+rows[i].text+", ", ", "+alt+", ", 1)
+				rows[i].text = alt
+			}
+		}
+	}
+	if st, resp, pn := eng.do("POST", "/api/v1/solutions", "text/csv", csvText); pn != "" || st != 200 {
+		p.fail("lossless", "portability:engine-summary-rejected", fmt.Sprintf("POST /api/v1/solutions of the Saver's own summary (respelt=%v): status %d panic %q body %.300s\n%s", respell, st, pn, resp, csvText), nil)
+		return
+	}
+	for _, row := range rows {
+		st, resp, pn := eng.do("GET", "/api/v1/solutions/"+row.label, "", "")
+		var doc c09SolutionDoc
+		if pn != "" || st != 200 || json.Unmarshal([]byte(resp), &doc) != nil {
+			p.fail("lossless", "portability:engine-solution-unreadable", fmt.Sprintf("GET /api/v1/solutions/%s: status %d panic %q body %.200s", row.label, st, pn, resp), nil)
+			continue
+		}
+		p.servedLine("engine-pool", row.text, &doc, row.active, nil)
+	}
+}
+
 func suitePortability(c *Ctx) {
 	if c.Replay != "" {
 		// protocol lines are self-contained for the model side; on the Go side a replay re-runs the
@@ -405,6 +1055,25 @@ func suitePortability(c *Ctx) {
 				c.Op(l, in.exec("spec-enc "+strings.Join(w[1:], " ")))
 			case "pd":
 				c.Op(l, in.exec("spec-dec "+strings.Join(w[1:], " ")))
+			case "less":
+				if len(w) == 3 {
+					a, ok1 := c09ParseStub(w[1])
+					b, ok2 := c09ParseStub(w[2])
+					if ok1 && ok2 {
+						c09LessLine(c, a, b)
+					}
+				}
+			case "sort":
+				var stubs []c09Stub
+				ok := true
+				for _, t := range w[1:] {
+					st, k := c09ParseStub(t)
+					ok = ok && k
+					stubs = append(stubs, st)
+				}
+				if ok {
+					c09SortLine(c, stubs)
+				}
 			}
 		}
 		return
@@ -415,10 +1084,15 @@ func suitePortability(c *Ctx) {
 		name := filepath.Base(filepath.Dir(filepath.Dir(rel))) + "/" + filepath.Base(rel)
 		datasets = append(datasets, c09Dataset{name: name, rel: rel, abs: filepath.Join(cwd, rel)})
 	}
-	// synthetic: 6 and 10 copies of the shipped data (78 and 130 actions: above 64 / 128, not multiples of 64)
-	for _, copies := range []int{6, 10} {
-		dst := filepath.Join(c.Out, fmt.Sprintf("synthetic%d", copies))
-		if err := c09WriteReplicatedDataset(filepath.Join(cwd, "internal/pkg/model/models/catchment/testdata"), dst, copies); err != nil {
+	// synthetic: the shipped data replicated (and trimmed) to 64, 78, 128, 130 and 192 actions
+	wantActions := map[string]int{}
+	for _, sp := range c09SynthSpecs {
+		dst := filepath.Join(c.Out, sp.name)
+		err := c09WriteReplicatedDataset(filepath.Join(cwd, "internal/pkg/model/models/catchment/testdata"), dst, sp.copies)
+		if err == nil {
+			err = c09DropWetlandRows(dst, sp.drop)
+		}
+		if err != nil {
 			c.Fail("harness", "portability:synthetic-dataset", err.Error(), nil)
 			continue
 		}
@@ -427,10 +1101,12 @@ func suitePortability(c *Ctx) {
 			c.Fail("harness", "portability:synthetic-dataset", err.Error(), nil)
 			continue
 		}
-		datasets = append(datasets, c09Dataset{name: fmt.Sprintf("synthetic-x%d", copies), rel: rel, abs: filepath.Join(dst, "ValidModel.csv")})
+		wantActions[sp.name] = sp.want
+		datasets = append(datasets, c09Dataset{name: sp.name, rel: rel, abs: filepath.Join(dst, "ValidModel.csv")})
 	}
 
 	r := c.Rng.Fork() // Fork: util.go's streams for seeds k and k+1 are the same sequence shifted by one draw; forking decorrelates them
+	c09OrderLines(c, r.Fork())
 	for _, ds := range datasets {
 		ref, err := c09BuildInstance(ds, c09KindModel)
 		if err != "" {
@@ -440,6 +1116,9 @@ func suitePortability(c *Ctx) {
 		p := &c09PortRun{c: c, ds: ds, refKeys: c09KeysOf(ref), n: len(ref.ManagementActions()), encSeen: map[string]string{}, compress: new(modelArchive.ModelCompressor)}
 		c.Stat(fmt.Sprintf("dataset %s actions=%d", ds.name, p.n))
 		shipped := !strings.HasPrefix(ds.name, "synthetic")
+		if w, ok := wantActions[ds.name]; ok && w != p.n {
+			c.Fail("harness", "portability:synthetic-dataset", fmt.Sprintf("%s was built to have %d actions, the model holds %d", ds.name, w, p.n), nil)
+		}
 
 		p.orderCheck((c.N(30, 300) + c.Shards - 1) / c.Shards)
 
@@ -468,7 +1147,10 @@ func suitePortability(c *Ctx) {
 				ones[i] = true
 			}
 			sets = append(sets, ones)
-			for i := 0; i < p.n; i++ { // every single action
+			for i := 0; i < p.n; i++ { // every single action (synthetic datasets, quick tier: those next to a word boundary + a sample)
+				if !shipped && !c.Thorough() && !(i%64 <= 1 || i%64 >= 62 || i == p.n-1 || r.Chance(0.08)) {
+					continue
+				}
 				f := make([]bool, p.n)
 				f[i] = true
 				sets = append(sets, f)
@@ -497,7 +1179,11 @@ func suitePortability(c *Ctx) {
 				break
 			}
 			c09SetFlags(a, flags)
-			p.transfer(a, flags, "index-order", bKind, preset)
+			var respell *Rng
+			if r.Chance(0.4) {
+				respell = r
+			}
+			p.transfer(a, flags, "index-order", bKind, preset, respell)
 			// route 2: the long-lived walker, toggled towards the set in a random order
 			idx := make([]int, p.n)
 			for i := range idx {
@@ -510,7 +1196,34 @@ func suitePortability(c *Ctx) {
 			for _, i := range idx {
 				walker.SetManagementAction(i, flags[i])
 			}
-			p.transfer(walker, flags, "walk", r.Intn(c09KindCount), nil)
+			respell = nil
+			if r.Chance(0.4) {
+				respell = r
+			}
+			p.transfer(walker, flags, "walk", r.Intn(c09KindCount), nil, respell)
+		}
+
+		// the real call sites: Saver (events with real archives), engine PATCH /model, engine solution pool
+		eng := p.newEngine()
+		events := (c.N(6, 60) + c.Shards - 1) / c.Shards
+		if !shipped {
+			events = (c.N(4, 30) + c.Shards - 1) / c.Shards
+		}
+		for i := 0; i < events; i++ {
+			p.saverPath(r, walker, eng)
+		}
+		if eng != nil {
+			patches := (c.N(12, 120) + c.Shards - 1) / c.Shards
+			for i := 0; i < patches; i++ {
+				flags := c09RandBits(r, p.n, []float64{0.1, 0.5, 0.5, 0.9}[r.Intn(4)])
+				c09SetFlags(walker, flags)
+				canonical := p.compress.Compress(walker).Encoding()
+				fed := canonical
+				if r.Bool() {
+					fed = c09ValidTextFor(r, flags, true)
+				}
+				p.enginePatch(eng, fed, canonical, c09ActiveSetOf(walker))
+			}
 		}
 	}
 }
